@@ -150,7 +150,8 @@ impl<'a> Renderer<'a> {
             self.lines.push(String::new());
         }
         if self.rng.below(8) < self.lay.comment {
-            let c = *self.rng.pick(&["; comment", ";", "   ; mov ax, 1", "; start: hlt", ";;; print reg", "; caf\u{e9} \u{20ac}5 \u{1f600}"]);
+            let c = *self.rng.pick(&["; comment", ";", "   ; mov ax, 1", "; start: hlt", ";;; print reg", "; caf\u{e9} \u{20ac}5 \u{1f600}",
+                                     "; the \"seed\" value", "; \"", "; x: db \"a;b\" ; \"", "; <- -> macro m(a) def f { }"]);
             self.lines.push(c.to_string());
         }
     }
@@ -202,7 +203,9 @@ impl<'a> Renderer<'a> {
                 text.push(' ');
                 full = text.clone();
             }
-            full.push_str("; trailing comment");
+            // (a comment may hold anything up to the end of its line: quotes, further semicolons, brackets, arrows)
+            let c = *self.rng.pick(&["; trailing comment", "; trailing comment", "; the \"seed\" value", "; \"", ";;", "; <- } ] -> \"x\""]);
+            full.push_str(c);
             self.commented.insert(self.lines.len() + 1);
         }
         self.lines.push(full);
